@@ -125,16 +125,17 @@ CODE_PEP525_RETURN_CHECKED = f'''
                 # Yield the value previously yielded by the inner generator up
                 # to the caller *AND* capture any value sent in from the caller.
                 __beartype_agen_send_pith = yield __beartype_agen_yield_pith
-            # If the caller threw a PEP 525-compliant "GeneratorExit" exception
-            # into this outer generator, the caller instructed this outer
-            # generator to prematurely close prior to completion by calling the
-            # aclose() method on this outer generator. This is a valid use case.
-            except GeneratorExit as exception:
-                # Propagate this closure request to the inner generator.
-                await {VAR_NAME_PITH_ROOT}.aclose()
-
-                # Re-raise this exception for orthogonality with PEP 380.
-                raise
+            # Note that a "GeneratorExit" exception thrown into this outer generator
+            # (by either the aclose() or athrow() methods) is intentionally *NOT*
+            # special-cased by calling the aclose() method of the inner generator
+            # and re-raising, as PEP 380 does. The caller cannot distinguish
+            # aclose() from athrow(GeneratorExit), but the inner generator reacts
+            # to both in the same way when that exception is simply forwarded by
+            # athrow(): if the inner generator catches "GeneratorExit" and
+            # returns, this outer generator returns as well ("StopAsyncIteration"
+            # for athrow(), success for aclose()) exactly like the undecorated
+            # generator; if the inner generator does not catch it, "GeneratorExit"
+            # propagates through this outer generator unchanged.
             # If the caller threw an exception into this outer generator by
             # passing this exception to the athrow() method of this outer
             # generator...
